@@ -69,7 +69,11 @@ PROP_DRIVERS = {
     "C05": ["corpus", "conformant"],
     "C06": ["corpus", "conformant", "mutate"],
     "C07": ["corpus", "conformant", "mutate"],
+    "C08": ["corpus", "conformant", "mutate"],
+    "C09": ["corpus", "conformant", "mutate"],
+    "C10": ["corpus", "conformant", "mutate"],
     "C12": ["corpus", "mutate", "conformant"],
+    "C13": ["corpus", "conformant", "mutate"],
     "C14": ["corpus", "truncate", "mutate"],
 }
 
